@@ -388,6 +388,42 @@ def run(repo: Repo) -> Result:
             res.sample({"rule": "C19-SCOPE", "node": c.qual, "method": sm, "claimed": sorted(cl_c) + [f"self.{x}" for x in sorted(cl_f)], "bound": sorted(b_c) + [f"self.{x}" for x in sorted(b_f)]}, cap=20)
     if n_nodes < 25:
         raise AnchorMissing(f"only {n_nodes} node classes with render/reporting methods")
+    # C19-SCOPE, conditional claims: a partial's bound variable (`with x` / `for xs`, by alias or by
+    # the template's stem name) is put into the namespace only when the tag has one — the render
+    # method stores that key under `self.var` (truthy / is not None).  `partial_scope()` may add
+    # the corresponding name only under the same guard: claimed without it, a plain
+    # `{% include 'product' %}` hides every global called `product` that the partial reads.
+    from ..guards import canon as _canon_ps
+    from ..guards import conditions as _conds_ps
+
+    n_ps = 0
+    for c in nodes:
+        ps_m = c.methods.get("partial_scope")
+        r_m = c.methods.get("render_to_output")
+        if ps_m is None or r_m is None:
+            continue
+        guards = None  # the field guards common to every store of the bound variable's key
+        for st, cs in _conds_ps(r_m.node):
+            if isinstance(st, ast.Assign) and len(st.targets) == 1 and isinstance(st.targets[0], ast.Subscript) and isinstance(st.targets[0].slice, ast.Name):
+                g_here = set()
+                for cnd in cs:
+                    t_ = _canon_ps(cnd)
+                    for sfx in ("", " is not None"):
+                        if t_.startswith("self.") and t_.endswith(sfx) and t_[5 : len(t_) - len(sfx)].isidentifier():
+                            g_here.add(t_[5 : len(t_) - len(sfx)])
+                guards = g_here if guards is None else guards & g_here
+        if not guards:
+            continue
+        n_ps += 1
+        for st, cs in _conds_ps(ps_m.node):
+            if isinstance(st, ast.Expr) and isinstance(st.value, ast.Call) and callee_name(st.value) == "append":
+                have = {_canon_ps(cnd) for cnd in cs}
+                res.ob(f"scope-guard:{c.qual}.partial_scope")
+                for g in sorted(guards):
+                    if not ({f"self.{g}", f"self.{g} is not None"} & have):
+                        res.add("C19-SCOPE", c.qual, f"partial_scope:unguarded:{g}", f"{c.name}.partial_scope() adds `{text(st.value.args[0])[:50] if st.value.args else ''}` to the partial's scope where `self.{g}` is not known to be set (path conditions: {sorted(have)}), but {c.name}.render_to_output binds that name only under `self.{g}`: without a bound variable the name is not bound at render time, and a global of that name read inside the partial is not reported", ps_m.file, st.lineno)
+    if n_ps < 2:
+        raise AnchorMissing(f"only {n_ps} nodes with a guarded bound variable found (include and render expected)")
 
     # ---- C19-SUBEXPR ----------------------------------------------------------------
     exprs = repo.subclasses("liquid.expression.Expression", strict=True)
@@ -618,6 +654,12 @@ def run(repo: Repo) -> Result:
                 nm_r = resolve_local(name_expr, assigns)
                 arms = []
                 todo_ = [nm_r]
+                if isinstance(nm_r, ast.Name):
+                    # bound in several branches (the conditional written as statements)
+                    multi = [st_.value for st_ in ast.walk(ps.node) if isinstance(st_, ast.Assign) and len(st_.targets) == 1 and is_name_(st_.targets[0], nm_r.id)]
+                    if len(multi) > 1:
+                        todo_ = list(multi)
+                        nm_r = ast.IfExp(test=ast.Constant(value=Ellipsis), body=multi[0], orelse=multi[1])
                 while todo_:
                     x_ = todo_.pop()
                     if isinstance(x_, ast.IfExp):
